@@ -950,17 +950,6 @@ func (this *encodingTask) encode(res *encodingTaskResult) {
 		evt := kanzi.NewEvent(kanzi.EVT_AFTER_ENTROPY, int(this.currentBlockID),
 			int64((written+7)>>3), checksum, hashType, time.Now())
 		notifyListeners(this.listeners, evt)
-
-		if v, hasKey := this.ctx["verbosity"]; hasKey {
-			blockOffset := this.obs.Written()
-
-			if v.(uint) > 4 {
-				msg := fmt.Sprintf("{ \"type\":\"%s\", \"id\":%d, \"offset\":%d, \"skipFlags\":%.8b }",
-					"BLOCK_INFO", int(this.currentBlockID), blockOffset, skipFlags)
-				evt1 := kanzi.NewEventFromString(kanzi.EVT_BLOCK_INFO, int(this.currentBlockID), msg, time.Now())
-				notifyListeners(this.listeners, evt1)
-			}
-		}
 	}
 
 	// Lock free synchronization
@@ -977,6 +966,19 @@ func (this *encodingTask) encode(res *encodingTaskResult) {
 
 		if n&0x1F == 0 {
 			runtime.Gosched()
+		}
+	}
+
+	if len(this.listeners) > 0 {
+		if v, hasKey := this.ctx["verbosity"]; hasKey {
+			if v.(uint) > 4 {
+				// The shared bitstream can only be accessed by the task owning the block id
+				blockOffset := this.obs.Written()
+				msg := fmt.Sprintf("{ \"type\":\"%s\", \"id\":%d, \"offset\":%d, \"skipFlags\":%.8b }",
+					"BLOCK_INFO", int(this.currentBlockID), blockOffset, skipFlags)
+				evt1 := kanzi.NewEventFromString(kanzi.EVT_BLOCK_INFO, int(this.currentBlockID), msg, time.Now())
+				notifyListeners(this.listeners, evt1)
+			}
 		}
 	}
 
